@@ -45,25 +45,17 @@ Proof.
   intros a b Ha Hb. apply negb_true_iff in Hb.
   split; apply Z.eqb_neq; intro E; subst; congruence.
 Qed.
-Definition rat_key_ok (n d : Z) : bool := ((0 <? d) && (Z.gcd n d =? 1) && negb (d =? 1) && (Z.abs n <? 2 ^ 62))%Z.
-Lemma rat_key_facts : forall n d, rat_key_ok n d = true -> (0 < d /\ Z.gcd n d = 1 /\ d <> 1 /\ Z.abs n < 2 ^ 62)%Z.
+Definition rat_key_ok (n d : Z) : bool := ((0 <? d) && (Z.gcd n d =? 1) && negb (d =? 1))%Z.
+Lemma rat_key_facts : forall n d, rat_key_ok n d = true -> (0 < d /\ Z.gcd n d = 1 /\ d <> 1)%Z.
 Proof.
-  intros n d H. unfold rat_key_ok in H. apply andb_true_iff in H as [H H4]. apply andb_true_iff in H as [H H3].
-  apply andb_true_iff in H as [H1 H2]. apply Z.ltb_lt in H1, H4. apply Z.eqb_eq in H2. apply negb_true_iff in H3.
+  intros n d H. unfold rat_key_ok in H. apply andb_true_iff in H as [H H3].
+  apply andb_true_iff in H as [H1 H2]. apply Z.ltb_lt in H1. apply Z.eqb_eq in H2. apply negb_true_iff in H3.
   apply Z.eqb_neq in H3. auto.
 Qed.
 Lemma rat_not_int : forall n d a, rat_key_ok n d = true -> ((a * d =? n) = false /\ (n =? a * d) = false)%Z.
 Proof.
-  intros n d a H. destruct (rat_key_facts n d H) as (Hd & Hg & H1 & _).
+  intros n d a H. destruct (rat_key_facts n d H) as (Hd & Hg & H1).
   split; apply Z.eqb_neq; intro E; apply H1; apply (gcd_one_divides n d a Hd Hg); lia.
-Qed.
-Lemma rat_not_big : forall n d a, rat_key_ok n d = true -> negb (int64_ok a) = true ->
-  same_m (Big a) (Rat n d) = false /\ same_m (Rat n d) (Big a) = false.
-Proof.
-  intros n d a H Ha. destruct (rat_key_facts n d H) as (Hd & _ & _ & Hn). apply negb_true_iff in Ha.
-  unfold same_m. rewrite Ha.
-  destruct (rne_small 53 n d a Hd Hn Ha) as [-> _].
-  destruct (rne_small (Z.max (bitlen a) 64) n d a Hd Hn Ha) as [_ ->]. auto.
 Qed.
 
 Lemma eql_is_gokey : forall a b, simple_key (r_obj a) = true -> simple_key (r_obj b) = true ->
@@ -85,9 +77,9 @@ Proof.
   - (* Big, Fix *) unfold same_m. apply (int64_sep z0 z Sb Sa).
   - (* Big, Big *) unfold same_m. destruct (Z.eqb_spec z z0) as [->|N]; [apply orb_true_r|]. rewrite orb_false_r.
     apply N.eqb_neq. intro E. specialize (C eq_refl E). inversion C. contradiction.
-  - (* Big, Rat *) apply (rat_not_big n d z Sb Sa).
+  - (* Big, Rat *) unfold same_m. apply (rat_not_int n d z Sb).
   - (* Rat, Fix *) unfold same_m. apply (rat_not_int n d z Sa).
-  - (* Rat, Big *) apply (rat_not_big n d z Sa Sb).
+  - (* Rat, Big *) unfold same_m. apply (rat_not_int n d z Sa).
   - (* Rat, Rat *) unfold same_m. destruct (Z.eqb_spec (n * d0) (n0 * d)) as [E0|N]; [apply orb_true_r|]. rewrite orb_false_r.
     apply N.eqb_neq. intro E. specialize (C eq_refl E). inversion C. subst. contradiction.
   - (* Chr *) destruct (N.eqb_spec c c0) as [->|N]; [apply orb_true_r|]. rewrite orb_false_r.
@@ -133,7 +125,7 @@ Section SimpleRefs.
   Lemma key_nofloat : forall r, simple_key (r_obj r) = true -> is_lst (r_obj r) = false -> nofloat_key (gokey_of r) = true.
   Proof.
     intros [x w] S L. destruct x; cbn [r_obj simple_key is_lst gokey_of nofloat_key] in *; try discriminate; try reflexivity.
-    apply andb_true_iff in S as [S _]. apply andb_true_iff in S as [S _]. apply andb_true_iff in S as [S _]. exact S.
+    apply andb_true_iff in S as [S _]. apply andb_true_iff in S as [S _]. exact S.
   Qed.
   Lemma simple_sep : is_lst (r_obj a) = negb (is_lst (r_obj b)) -> eql_m a b = false.
   Proof.
